@@ -274,12 +274,10 @@ def run(ctx):
         ctx.floor("C11.gate", "rejecting paths (%s)" % cfg, n_rej, 2 if cfg == "tls" else 1)
         # SQLSTATE of the rejection kind
         ss = prog.one(r"errorcodes::ErrorKind::sqlstate$")
-        for b in range(ss.n):
-            t = ss.term(b)
-            if t["k"] == "switch" and str(H.ACCESS_DENIED[0]) in t["vals"]:
-                tgt = t["tgts"][t["vals"].index(str(H.ACCESS_DENIED[0]))]
-                st = [bytes(s["rv"]["op"]["const"]["bytes"]) for s in ss.blocks[tgt]["stmts"] if s["k"] == "assign" and s["lhs"]["l"] == 0 and "const" in s["rv"].get("op", {})]
-                ctx.ob("C11.gate", st == [H.ACCESS_DENIED[1]], "SQLSTATE of code 1045 is %s (need 28000)" % st, fn=ss.path, construct="sqlstate-1045", nontrivial=False)
+        from engines import tables
+        stab, _open = tables.value_table(ss, lambda t: isinstance(t, tuple) and t[0] == "discr" and T.is_param(T.peel(t[1]), 1))
+        st = sorted({T.const_bytes(T.peel(rv)) for rv in stab.get(H.ACCESS_DENIED[0], [])}, key=lambda x: x or b"")
+        ctx.ob("C11.gate", st == [H.ACCESS_DENIED[1]], "SQLSTATE of code 1045 is %s (need 28000)" % st, fn=ss.path, construct="sqlstate-1045", nontrivial=False)
 
         # ---- username flow / SSL refusal -------------------------------------------------------------
         n = 0
